@@ -7,6 +7,7 @@ package ptracker
 import (
 	"encoding/json"
 	"fmt"
+	"os"
 	"reflect"
 	"regexp"
 	"sort"
@@ -19,9 +20,11 @@ import (
 	"github.com/elastic/go-libaudit/v2/aucoalesce"
 	"github.com/elastic/go-libaudit/v2/auparse"
 	"github.com/metal-toolbox/auditevent"
+	"go.uber.org/zap"
 
 	"github.com/metal-toolbox/audito-maldito/internal/common"
 	"github.com/metal-toolbox/audito-maldito/internal/verif/dump"
+	"github.com/metal-toolbox/audito-maldito/internal/verif/mc"
 	"github.com/metal-toolbox/audito-maldito/internal/verif/vsync"
 	"github.com/metal-toolbox/audito-maldito/processors/auditd/sessiontracker"
 )
@@ -169,10 +172,19 @@ func evLabel(s, i int) string {
 
 func xLabel(s int) string { return fmt.Sprintf("s%dx", s) }
 
+// trackerLogger: the tracker runs with a debug-level logger (output encoded, then discarded) so that its logging
+// statements - which evaluate tracker state - are part of what is explored. VERIF_NO_DEBUG_LOG=1 gives nil.
+var trackerLogger = func() *zap.SugaredLogger {
+	if os.Getenv("VERIF_NO_DEBUG_LOG") != "" {
+		return nil
+	}
+	return mc.DebugLogger()
+}()
+
 func NewWorld(sess []SessDef, logins []LoginDef) *World {
 	w := &World{Rec: &Recorder{}, Sess: sess, Logins: logins}
 	w.EW = auditevent.NewDefaultAuditEventWriter(w.Rec)
-	w.T = sessiontracker.NewSessionTracker(w.EW, nil)
+	w.T = sessiontracker.NewSessionTracker(w.EW, trackerLogger)
 	w.register()
 	labels := map[unsafe.Pointer]string{}
 	base := time.Unix(1700000000, 0).UTC()
@@ -204,6 +216,31 @@ func NewWorld(sess []SessDef, logins []LoginDef) *World {
 				Summary:   aucoalesce.Summary{Action: evLabel(si, ei), How: "how", Object: aucoalesce.Object{Type: "t", Primary: "o"}},
 				Process:   aucoalesce.Process{PID: sd.PID},
 			}
+			// Everything else an event carries is decoration as far as correlation goes (session id, record type and
+			// the pid of the LOGIN record decide): it is filled with values that point at OTHER tracked logins and
+			// sessions, so that any use of it for correlation, session end or identity shows up as a difference.
+			other := sess[(si+1)%len(sess)]
+			e.Process.PPID = other.PID // the parent happens to be another login's sshd
+			e.Process.Name, e.Process.CWD, e.Process.Title = "sshd", "/", "sshd: user [priv]"
+			switch {
+			case typ == auparse.AUDIT_CRED_DISP && si%2 == 0:
+				e.Process.Exe = "/usr/sbin/sshd (deleted)" // sshd was upgraded on disk while the session was open
+			case typ == auparse.AUDIT_CRED_DISP:
+				e.Process.Exe = "/usr/lib/openssh/sshd-session" // OpenSSH >= 9.8 runs sessions in a separate binary
+			case si%2 == 1:
+				e.Process.Exe = "/usr/sbin/sshd (deleted)"
+			case ei%2 == 1:
+				e.Process.Exe = "/usr/bin/sudo"
+			default:
+				e.Process.Exe = "/usr/sbin/sshd"
+			}
+			e.User.IDs = map[string]string{"auid": "1000", "uid": "0", "old-auid": "4294967295"}
+			e.User.Names = map[string]string{"auid": "user-of-" + other.ID, "uid": "root"}
+			e.Tags = []string{"session-" + other.ID}
+			if e.Data == nil {
+				e.Data = map[string]string{}
+			}
+			e.Data["pid"], e.Data["ses"], e.Data["acct"], e.Data["ppid"] = other.PID, other.ID, "user-of-"+other.ID, other.PID
 			labels[unsafe.Pointer(e)] = evLabel(si, ei)
 			evs = append(evs, e)
 		}
